@@ -49,6 +49,9 @@ CHECKS = {
             "TLA+ trace validation (TLC), strict next-state relation"),
     "C16": ("model_checking", "3 C16", "operation sequences of length 200 over up to 24 keys (full-table case) with clock advances compared step by step by TLC with the dictionary model of Automata.tla "
             "(return value, count, empty, all-complete, live set); the dictionary model itself is model-checked (AutomataMC)", "TLA+ model checking + trace validation (TLC)"),
+    "C17": ("model_checking", "3 C17", "Registry.tla (PlusCal) explores all interleavings of the registry's shared-memory steps; every maximal schedule is forced through yield hooks on real threads "
+            "and matched against the model (RegistryTrace.tla); TSan with barrier-released threads; interleaved vs solo per-interface traces validated by TLC. The lost-update race of "
+            "lltd_state_for_iface is a recorded known finding", "TLA+/PlusCal model checking + forced-schedule replay + trace validation (TLC), TSan"),
     "C18": ("fault_enumeration", "3 C18", "every k-th allocation, every transmit, getter subsets failed per corpus request under ASan; TLC checks reaction bounds, ledger and post-Reset equality with a fresh twin",
             "TLA+ trace validation (TLC) over enumerated fault plans"),
     "C19": ("model_checking", "3 C19", "TLC ledger monitors (plateau under floods of distinct probes, idempotence, reset-constant, per-request growth) on live-allocation counts of the verification port",
